@@ -37,6 +37,9 @@ flags_for() {
 
 GC_WRAPS="-Wl,--wrap=pthread_cond_clockwait -Wl,--wrap=_ZNSt6chrono3_V212steady_clock3nowEv -Wl,--wrap=_ZNSt6thread4joinEv -Wl,--wrap=_ZNSt18condition_variable10notify_allEv -Wl,--wrap=_ZNSt6thread15_M_start_threadESt10unique_ptrINS_6_StateESt14default_deleteIS1_EEPFvvE -Wl,--wrap=_ZNSt18condition_variable4waitERSt11unique_lockISt5mutexE -Wl,--wrap=_ZNSt6thread6detachEv"
 
+# gcsim under ThreadSanitizer: the timer thread is pre-empted at its atomic operations (sim/seams/gcsched.hpp, GCS_ATOMIC_SEAM)
+SEAM_WRAPS="-Wl,--wrap=__tsan_atomic8_load -Wl,--wrap=__tsan_atomic8_store -Wl,--wrap=__tsan_atomic8_exchange -Wl,--wrap=__tsan_atomic8_fetch_add -Wl,--wrap=__tsan_atomic8_fetch_sub -Wl,--wrap=__tsan_atomic8_compare_exchange_strong -Wl,--wrap=__tsan_atomic8_compare_exchange_weak -Wl,--wrap=__tsan_atomic8_compare_exchange_val -Wl,--wrap=__tsan_atomic32_load -Wl,--wrap=__tsan_atomic32_store -Wl,--wrap=__tsan_atomic32_exchange -Wl,--wrap=__tsan_atomic32_fetch_add -Wl,--wrap=__tsan_atomic32_fetch_sub -Wl,--wrap=__tsan_atomic32_compare_exchange_strong -Wl,--wrap=__tsan_atomic32_compare_exchange_weak -Wl,--wrap=__tsan_atomic32_compare_exchange_val -Wl,--wrap=__tsan_atomic64_load -Wl,--wrap=__tsan_atomic64_store -Wl,--wrap=__tsan_atomic64_exchange -Wl,--wrap=__tsan_atomic64_fetch_add -Wl,--wrap=__tsan_atomic64_fetch_sub -Wl,--wrap=__tsan_atomic64_compare_exchange_strong -Wl,--wrap=__tsan_atomic64_compare_exchange_weak -Wl,--wrap=__tsan_atomic64_compare_exchange_val -Wl,--wrap=pthread_mutex_lock"
+
 # engine -> extra link flags / libs
 link_extra() {
   case "$1" in
@@ -100,7 +103,9 @@ build_one() {
     if [ ! -x "$bin" ]; then
       extra_inc=""
       if [ "$engine" = "updsim" ]; then extra_inc="-I$VERIF/shim -DCPPHTTPLIB_OPENSSL_SUPPORT"; fi
-      $cc $extra_inc $common -DVERIF_FLAVOUR="\"$flavour\"" -DVERIF_REPO_SRC="\"$SRC\"" "$VERIF/sim/engines/$engine.cpp" ${objs[@]+"${objs[@]}"} $(link_extra "$engine") -o "$bin.tmp"
+      seam=""
+      if [ "$engine" = "gcsim" ] && [ "$flavour" = "tsan" ]; then seam="-DGCS_ATOMIC_SEAM $SEAM_WRAPS"; fi
+      $cc $extra_inc $seam $common -DVERIF_FLAVOUR="\"$flavour\"" -DVERIF_REPO_SRC="\"$SRC\"" "$VERIF/sim/engines/$engine.cpp" ${objs[@]+"${objs[@]}"} $(link_extra "$engine") -o "$bin.tmp"
       mv "$bin.tmp" "$bin"
       # drop older binaries of this engine in this dir
       ls -1t "$dir/$engine"-* 2>/dev/null | grep -v '\.tmp$' | tail -n +3 | xargs -r rm -f
